@@ -8,6 +8,8 @@
 //!   tag 5 (Type, &[u8]) [type index][len x3]      tag 6 byte slice [len x3]
 //!   tag 7 TypeLengthValues section [raw bytes]    tag 8 Type [type index]
 //!   tag 9 &TypeLengthValue [kind][len x3]
+//!   tag 11 two TLVs written one after the other into the same writer [k1][l1][v1..][k2][l2][v2..]
+//!   tag 10 TLV with an explicit value [kind][value bytes]: written as TypeLengthValue, (u8,&[u8]) and &TypeLengthValue
 
 use super::c07::{real_addresses, TYPES};
 use super::values::{AddrValues, AV};
@@ -182,6 +184,36 @@ fn check(case: &[u8], acc: &mut Acc) {
             let s = TypeLengthValues::from(p);
             run_one(acc, "TypeLengthValues::write_to", pc, Some(p.to_vec()), &|w| s.write_to(w), &|| s.to_bytes());
         }
+        11 if p.len() >= 2 => {
+            let (k1, l1) = (p[0], p[1] as usize);
+            if p.len() < 2 + l1 + 2 {
+                return;
+            }
+            let v1 = &p[2..2 + l1];
+            let q = &p[2 + l1..];
+            let (k2, l2) = (q[0], q[1] as usize);
+            if q.len() < 2 + l2 {
+                return;
+            }
+            let v2 = &q[2..2 + l2];
+            let e: Vec<u8> = [enc::tlv(k1, v1).unwrap(), enc::tlv(k2, v2).unwrap()].concat();
+            let first = enc::tlv(k1, v1).unwrap().len();
+            // struct then pair, pair then struct: the second write must append after the first, which must stay as written
+            let (a, b) = (TypeLengthValue::new(k1, v1), (k2, v2));
+            run_one(acc, "TypeLengthValue then (u8,&[u8]) into one Writer", pc, Some(e.clone()), &|w| { let n = a.write_to(w)?; if n != first { return Ok(usize::MAX); } Ok(n + b.write_to(w)?) }, &|| Ok(e.clone()));
+            let (a2, b2) = ((k1, v1), TypeLengthValue::new(k2, v2));
+            run_one(acc, "(u8,&[u8]) then TypeLengthValue into one Writer", pc, Some(e.clone()), &|w| { let n = a2.write_to(w)?; if n != first { return Ok(usize::MAX); } Ok(n + b2.write_to(w)?) }, &|| Ok(e.clone()));
+        }
+        10 if !p.is_empty() => {
+            let (kind, value) = (p[0], &p[1..]);
+            let e = enc::tlv(kind, value);
+            let t = TypeLengthValue::new(kind, value);
+            run_one(acc, "TypeLengthValue::write_to", pc, e.clone(), &|w| t.write_to(w), &|| t.to_bytes());
+            let pair = (kind, value);
+            run_one(acc, "(u8, &[u8])::write_to", pc, e.clone(), &|w| pair.write_to(w), &|| pair.to_bytes());
+            let r = &t;
+            run_one(acc, "&TypeLengthValue::write_to", pc, e, &|w| r.write_to(w), &|| r.to_bytes());
+        }
         8 if !p.is_empty() => {
             let (t, code) = TYPES[p[0] as usize % 12];
             run_one(acc, "Type::write_to", pc, Some(vec![code]), &|w| t.write_to(w), &|| t.to_bytes());
@@ -281,6 +313,87 @@ impl Universe for Sections {
     }
 }
 
+pub fn two_write_cases() -> Vec<Vec<u8>> {
+    let kinds = [0x01u8, 0x02, 0x03, 0x04, 0x05, 0x20, 0x21, 0x25, 0xee];
+    let values: Vec<Vec<u8>> = vec![vec![], vec![1, 0, 0, 0, 0], vec![0; 5], vec![0; 4], b"TLSv1.3".to_vec(), b"a.".to_vec(), (0..200u8).collect()];
+    let mut out = Vec::new();
+    for pc in [0u8, 2, 4] {
+        for &k1 in &kinds {
+            for v1 in &values {
+                for &k2 in &kinds {
+                    for v2 in &values {
+                        let mut c = vec![pc, 11, k1, v1.len() as u8];
+                        c.extend_from_slice(v1);
+                        c.push(k2);
+                        c.push(v2.len() as u8);
+                        c.extend_from_slice(v2);
+                        out.push(c);
+                    }
+                }
+            }
+        }
+    }
+    out
+}
+
+/// TLVs whose value is every string over {00,01,02,03,FF,own type byte} up to length n (tag 10).
+pub struct SmallTlvValues {
+    pub n: usize,
+    pub all_kinds: bool,
+}
+
+impl SmallTlvValues {
+    fn kinds(&self) -> Vec<u8> {
+        if self.all_kinds {
+            (0..=255u8).collect()
+        } else {
+            vec![0x00, 0x01, 0x03, 0x04, 0x05, 0x20, 0x21, 0x30, 0xee, 0xff]
+        }
+    }
+}
+
+impl Universe for SmallTlvValues {
+    fn name(&self) -> String {
+        "UW-small-values".into()
+    }
+    fn bound(&self) -> Value {
+        json!({"mode": "TLV / pair / &TLV whose value is every string over {00,01,02,03,FF,own type byte,a,.} of length <= n, prefills 0 and 16", "n": self.n, "kinds": self.kinds().len()})
+    }
+    fn units(&self) -> usize {
+        self.kinds().len()
+    }
+    fn roots(&self) -> u64 {
+        self.kinds().len() as u64
+    }
+    fn run_unit(&self, u: usize, f: &mut dyn FnMut(&[u8])) {
+        let kind = self.kinds()[u];
+        let sigma = [0x00u8, 0x01, 0x02, 0x03, 0xff, kind, b'a', b'.'];
+        fn rec(value: &mut Vec<u8>, left: usize, sigma: &[u8; 8], emit: &mut dyn FnMut(&[u8])) {
+            emit(value);
+            if left == 0 {
+                return;
+            }
+            for &b in sigma {
+                value.push(b);
+                rec(value, left - 1, sigma, emit);
+                value.pop();
+            }
+        }
+        let mut value = Vec::new();
+        let mut buf = Vec::new();
+        rec(&mut value, self.n, &sigma, &mut |v: &[u8]| {
+            for pc in [0u8, 2] {
+                buf.clear();
+                buf.push(pc);
+                buf.push(10);
+                buf.push(kind);
+                buf.extend_from_slice(v);
+                f(&buf);
+            }
+        });
+    }
+}
+
 /// Address values, as tag-2 cases with every prefill.
 pub struct AddrCases {
     pub inner: AddrValues,
@@ -318,4 +431,6 @@ pub fn run(run: &Run) {
     run.explore(&ListUniverse { name: "UW-values".into(), what: "integers, Types, TLVs / tuples / slices over type bytes and value lengths x prefills".into(), cases: cases(thorough) });
     run.explore(&AddrCases { inner: AddrValues { per_group: false, with_unix: true } });
     run.explore(&Sections { n: run.tier.pick(6, 8) });
+    run.explore(&SmallTlvValues { n: run.tier.pick(4, 5), all_kinds: thorough });
+    run.explore(&ListUniverse { name: "UW-two-writes".into(), what: "every ordered pair of TLVs over 9 type bytes x 7 values (empty, SSL-shaped, zeros, text, 300 bytes) written one after the other into one writer, 3 prefills".into(), cases: two_write_cases() });
 }
